@@ -1,5 +1,6 @@
 mod gen;
 mod gen2;
+mod genfibex;
 mod genmsg;
 mod ops3;
 mod ops4;
